@@ -91,6 +91,10 @@ def _templates(ctx, rng):
         lambda: ['Fill', ['lit', {'t': 'list', 'v': [{'t': 'spec', 'v': P()}, 3]}]],
         lambda: ['tuple', [['Val', simd()], ['Merge', ['Val', {'t': 'list', 'v': [simd(), {'t': 'dict', 'v': [['z', 1]]}]}]]]],
         lambda: ['custom', ctx.new_pid(), P(), 'reenter'],
+        lambda: ['tuple', [['Val', {'t': 'simnum', 'n': n(), 'v': rng.randint(1, 9)}],
+                           ['T', 'T', [[rng.choice(['+', '-', '*', '/', '%', ':']), rng.randint(1, 3)]]]]],
+        lambda: ['tuple', [['Val', {'t': 'dict', 'v': [['x', {'t': 'simnum', 'n': n(), 'v': 2}]]}],
+                           ['Coalesce', [['T', 'T', [['[', 'x'], [':', 2], ['-', 1]]]], {'default': 'arith-default'}]]],
     ]
     return rng.choice(t)()
 
@@ -120,7 +124,8 @@ def gen_item(seed, tier):
         spec = ['Fill', ['lit', {'t': 'list', 'v': [{'t': 'spec', 'v': p[1]} for p in parts]}]]
     pool = list(catalogue.EXC_ONLY) + list(catalogue.BASE_ONLY)
     special = ['UGlomKwOnly', 'UGlomArity', 'UserRewrite', 'UserKwOnly', 'UserArity', 'UGlomErr',
-               'UGlomErrInit', 'UGlomMixed', 'UGlomRewrite', 'KeyboardInterrupt', 'UserBase', 'UserKeyErr']
+               'UGlomErrInit', 'UGlomMixed', 'UGlomRewrite', 'KeyboardInterrupt', 'UserBase', 'UserKeyErr',
+               'UGlomLookup', 'OverflowError', 'ArithmeticError', 'ZeroDivisionError']
     classes = rng.sample(pool, 2) + [rng.choice(special)]
     knobs = simrun.draw_knobs(rng)
     knobs['glom_debug_env'] = rng.random() < 0.08      # GLOM_DEBUG=1 in the environment at import time
@@ -342,6 +347,10 @@ def _expected_translation(G, kind, X, sk):
         return ('MatchError', None)
     if kind == 'check-validator':
         return None          # CheckError carries only the repr of the cause; nothing to compare by identity
+    if kind == 'arith':
+        if issubclass(X, (TypeError, ZeroDivisionError)):
+            return ('PathAccessError', 'part_idx')
+        return ('self', None)
     if kind in ('next', 'callable'):
         return ('self', None)
     return None
@@ -393,7 +402,7 @@ def run_seed(seed, tier):
     out['runs'] += 1
     if D['res'][0] == 'exc' and isinstance(D['res'][1], RecursionError):
         return dict(out, stats={'skipped_recursive_item': 1})
-    points = [(e[1], e[2]) for e in D['k'].log if e[0] == 0 and e[3] in ('call', 'get', 'set', 'del', 'iter', 'next', 'glomit')]
+    points = [(e[1], e[2]) for e in D['k'].log if e[0] == 0 and e[3] in ('call', 'get', 'set', 'del', 'iter', 'next', 'glomit', 'arith')]
     stats['points_discovered'] = len(points)
     stats['items'] = 1
     if item['knobs'].get('glom_debug_env'):
